@@ -444,6 +444,30 @@ func Generate(seed uint64, prop, tier string) *Plan {
 // duplicate a descriptor: Run (Client.Start) must return with everything it had
 // created closed again, and nothing that is still running may use a closed number.
 func addStartFault(r *runner.Rand, p *Plan, prop string) {
+	if prop == "C19" {
+		// Register/Enroll/Dup under a failing duplication or registration: still
+		// exactly one result per call, a usable connection or an error
+		regs, dups := 0, 0
+		for _, u := range p.Users {
+			for _, op := range u.Ops {
+				switch op.K {
+				case "register", "enroll":
+					regs++
+					dups++
+				case "dup", "duplistener":
+					dups++
+				}
+			}
+		}
+		if regs > 0 && r.Chance(1, 4) {
+			if r.Chance(1, 2) {
+				p.Faults = append(p.Faults, vsys.Fault{Site: "epoll_ctl_add", Class: "stream", Nth: r.Range(1, regs+1), Errno: int(unix.ENOMEM)})
+			} else {
+				p.Faults = append(p.Faults, vsys.Fault{Site: "fcntl_dupfd", Nth: r.Range(1, dups), Errno: int(unix.EMFILE)})
+			}
+		}
+		return
+	}
 	if prop != "C07" {
 		return
 	}
